@@ -94,8 +94,15 @@ def _case(draw):
         st.tuples(st.just("fn_set"), st.integers(0, 1), st.integers(0, 1), val),
         st.tuples(st.just("fn_update"), st.integers(0, 1)),
     ).map(list)
-    return {"bases": bases, "classes": classes, "split": split, "ops": draw(st.lists(op, min_size=1, max_size=8)),
+    case = {"bases": bases, "classes": classes, "split": split, "ops": draw(st.lists(op, min_size=1, max_size=8)),
             "fn_deps": draw(st.lists(st.tuples(st.integers(0, 1), st.integers(0, 1)), min_size=1, max_size=4, unique=True))}
+    if draw(st.integers(0, 3)) == 0:
+        # side scenario: a dependent method that assigns (separately) the dependencies of another dependent method, next to a
+        # third method of the same trigger that may be queued; the downstream method runs once per change it is told of
+        case["fanout"] = {"fan_queued": draw(st.booleans()), "log_queued": draw(st.booleans()), "nassign": draw(st.integers(1, 3)),
+                          "route": draw(st.sampled_from(["attr", "update", "batch"])), "log_first": draw(st.booleans()),
+                          "rounds": draw(st.integers(1, 2))}
+    return case
 
 
 def strategy(tier):
@@ -368,10 +375,63 @@ def execute(case):
             res.fail("C06.function_form", f"{tag}: the decorated function ran for an unrelated change")
         if res.violations:
             break
+    if case.get("fanout") and not res.violations:
+        _fanout_scenario(res, case["fanout"])
     for m in marks:
         res.label(m)
     res.nontrivial = bool(marks & {"override", "method_name_dependency", "several_dependencies_changed_at_once"})
     return res
+
+
+def _fanout_scenario(res, c):
+    """`fan_out` depends on a and assigns b, c, d one after the other (nassign of them); `total` depends on b, c, d.  When fan_out
+    is an ordinary (non-queued) method each of its assignments is a change of its own for `total`: one call each.  When it is
+    queued, what it assigns is announced together when it is done: one call.  A third method of a (`log`, possibly queued,
+    declared before or after) must not change that - whatever the route by which a was changed."""
+    calls = []
+    names = ["b", "c", "d"][:c["nassign"]]
+
+    def fan_out(self):
+        calls.append("fan_out")
+        for k, n_ in enumerate(names):
+            setattr(self, n_, self.a * 10 ** (k + 1))
+
+    def total(self):
+        calls.append(("total", self.b, self.c, self.d))
+
+    def log_(self):
+        calls.append("log")
+        self.e = self.a
+    ns = {n_: param.Number(0) for n_ in ("a", "b", "c", "d", "e")}
+    logm = param.depends("a", watch="queued" if c["log_queued"] else True)(log_)
+    if c["log_first"]:
+        ns["log"] = logm
+    ns["fan_out"] = param.depends("a", watch="queued" if c["fan_queued"] else True)(fan_out)
+    ns["total"] = param.depends("b", "c", "d", watch=True)(total)
+    if not c["log_first"]:
+        ns["log"] = logm
+    O = type("O", (param.Parameterized,), ns)
+    o = O()
+    res.label("fanout:" + ("queued" if c["fan_queued"] else "immediate") + ":" + c["route"])
+    for r in range(1, c["rounds"] + 1):
+        del calls[:]
+        if c["route"] == "attr":
+            o.a = r
+        elif c["route"] == "update":
+            o.param.update(a=r)
+        else:
+            with batch_call_watchers(o):
+                o.a = r
+        tot = [x for x in calls if isinstance(x, tuple)]
+        want = 1 if c["fan_queued"] else c["nassign"]
+        if calls.count("fan_out") != 1 or calls.count("log") != 1:
+            res.fail("C06.duplicate_call" if max(calls.count("fan_out"), calls.count("log")) > 1 else "C06.missed_call",
+                     f"fanout {c!r}, round {r}: the methods depending on a ran {calls!r}")
+        elif len(tot) != want:
+            res.fail("C06.missed_call" if len(tot) < want else "C06.duplicate_call",
+                     f"fanout {c!r}, round {r}: the method depending on {names!r} ran {len(tot)}x, expected {want}x: {calls!r}")
+        elif tot and tot[-1][1:] != (o.b, o.c, o.d):
+            res.fail("C06.stale_values", f"fanout {c!r}, round {r}: the last call saw {tot[-1]!r}, the values are {(o.b, o.c, o.d)!r}")
 
 
 def _region_value_and_slot(case, v):
